@@ -253,6 +253,7 @@ Qed.
 
 Section Concrete.
   Variable now : nat -> nat.
+  Variable parent : name -> option name.      (* any nesting of the directory ids *)
   (* THE ASSUMPTION ABOUT THE OPERATING SYSTEM: the clock value a later operation stamps into
      st_ctime is strictly larger than the value stamped by any earlier operation *)
   Hypothesis now_strict : forall i j, i < j -> now i < now j.
@@ -326,7 +327,7 @@ Section Concrete.
             first [ apply le_refl | apply le_iset | apply le_istamp | apply le_adel | apply le_idrop ]).
 
   Lemma try_op_effect s o s' :
-    try_op now s o = Some s' ->
+    try_op now parent s o = Some s' ->
     itab_le (now (clock s)) (itab s) (itab s') /\ clock s' = clock s.
   Proof.
     intros H. destruct o; cbn [try_op] in H;
@@ -335,9 +336,9 @@ Section Concrete.
   Qed.
 
   Lemma fstep_effect s o :
-    itab_le (now (clock s)) (itab s) (itab (fstep now s o)) /\ clock (fstep now s o) = S (clock s).
+    itab_le (now (clock s)) (itab s) (itab (fstep now parent s o)) /\ clock (fstep now parent s o) = S (clock s).
   Proof.
-    unfold fstep. destruct (try_op now s o) as [s'|] eqn:E; cbn [tick itab clock].
+    unfold fstep. destruct (try_op now parent s o) as [s'|] eqn:E; cbn [tick itab clock].
     - destruct (try_op_effect _ _ _ E) as [L C]. split; [exact L|now rewrite C].
     - split; [apply le_refl|reflexivity].
   Qed.
@@ -346,13 +347,13 @@ Section Concrete.
   Definition stamps_ok (s : fsys) : Prop :=
     forall i f, aget i (itab s) = Some f -> f_ctime f < now (clock s).
 
-  Lemma stamps_ok_step s o : stamps_ok s -> stamps_ok (fstep now s o).
+  Lemma stamps_ok_step s o : stamps_ok s -> stamps_ok (fstep now parent s o).
   Proof.
     intros H i f G. destruct (fstep_effect s o) as [L C]. rewrite C.
     assert (now (clock s) < now (S (clock s))) by (apply now_strict; lia).
     destruct (L _ _ G) as [G0| ->]; [specialize (H _ _ G0)|]; lia.
   Qed.
-  Lemma stamps_ok_run ops : forall s, stamps_ok s -> stamps_ok (run_fs fsys fop (fstep now) s ops).
+  Lemma stamps_ok_run ops : forall s, stamps_ok s -> stamps_ok (run_fs fsys fop (fstep now parent) s ops).
   Proof.
     induction ops as [|o r IH]; intros s H; [exact H|]. cbn. apply IH. now apply stamps_ok_step.
   Qed.
@@ -361,7 +362,7 @@ Section Concrete.
 
   (* an inode seen later is the very same record, or carries a stamp of a later operation *)
   Lemma later_inode ops : forall s1 i g,
-    aget i (itab (run_fs fsys fop (fstep now) s1 ops)) = Some g ->
+    aget i (itab (run_fs fsys fop (fstep now parent) s1 ops)) = Some g ->
     aget i (itab s1) = Some g \/ now (clock s1) <= f_ctime g.
   Proof.
     induction ops as [|o r IH]; intros s1 i g G; [now left|].
@@ -379,21 +380,21 @@ Section Concrete.
     intros E. inversion E. f_equal; auto.
   Qed.
 
-  Notation reachF := (reach fsys fop (fstep now)).
+  Notation reachF := (reach fsys fop (fstep now parent)).
 
   (* the key of the current code is sound — under now_strict *)
   Theorem K_fixed_sound :
-    key_sound fsys target key digest fop target_exists K_fixed content_hash (fstep now) fs_empty.
+    key_sound fsys target key digest fop target_exists (K_fixed parent) (content_hash parent) (fstep now parent) fs_empty.
   Proof.
     intros s1 s2 t1 t2 [ops0 ->] [ops ->] _ _ HK.
-    set (s1 := run_fs fsys fop (fstep now) fs_empty ops0) in *.
+    set (s1 := run_fs fsys fop (fstep now parent) fs_empty ops0) in *.
     assert (OK : stamps_ok s1) by (apply stamps_ok_run, stamps_ok_empty).
     unfold K_fixed in HK. inversion HK as [[Ht HM]]. subst t2. clear HK.
     unfold content_hash. f_equal.
     revert HM. apply map_rel. intros [n1 i1] [n2 i2]. cbn [fst snd].
     intros E. inversion E as [[E1 E2 E3]]. subst n2 i2. f_equal.
     destruct (aget i1 (itab s1)) as [f|] eqn:A1;
-      destruct (aget i1 (itab (run_fs fsys fop (fstep now) s1 ops))) as [g|] eqn:A2;
+      destruct (aget i1 (itab (run_fs fsys fop (fstep now parent) s1 ops))) as [g|] eqn:A2;
       cbn in E3; try discriminate; [|reflexivity].
     inversion E3 as [[M C Z]].
     destruct (later_inode _ _ _ _ A2) as [A|A].
@@ -416,12 +417,12 @@ Section Concrete.
   Qed.
   Lemma kstat_eqb_spec a b : kstat_eqb a b = true <-> a = b.
   Proof.
-    destruct a as [[n i] x], b as [[m j] y]. cbn.
+    destruct a as [[[n1 n2] i] x], b as [[[m1 m2] j] y]. cbn.
     rewrite !andb_true_iff, !Nat.eqb_eq.
     assert (O : option_eqb triple_eqb x y = true <-> x = y).
     { destruct x as [[[a1 a2] a3]|], y as [[[b1 b2] b3]|]; cbn; try (split; (discriminate || reflexivity)).
       rewrite !andb_true_iff, !Nat.eqb_eq. split; [now intros [[-> ->] ->]|now intros [= -> -> ->]]. }
-    rewrite O. split; [now intros [[-> ->] ->]|now intros [= -> -> ->]].
+    rewrite O. split; [now intros [[[-> ->] ->] ->]|now intros [= -> -> -> ->]].
   Qed.
   Lemma key_eqb_spec a b : key_eqb a b = true <-> a = b.
   Proof.
@@ -430,7 +431,7 @@ Section Concrete.
     split; [now intros [-> ->]|now intros [= -> ->]].
   Qed.
 
-  Theorem fixed_key_outputs h : model_outputs now K_fixed h = spec_out now h.
+  Theorem fixed_key_outputs h : model_outputs now parent (K_fixed parent) h = spec_out now parent h.
   Proof.
     unfold model_outputs, spec_out. apply outputs_correct.
     - intros a b. apply key_eqb_spec.
@@ -438,8 +439,8 @@ Section Concrete.
   Qed.
 
   Theorem fixed_key_entries_current h :
-    Forall (fun x => entries_current fsys target key digest target_exists K_fixed content_hash (fst x))
-           (model_states now K_fixed h).
+    Forall (fun x => entries_current fsys target key digest target_exists (K_fixed parent) (content_hash parent) (fst x))
+           (model_states now parent (K_fixed parent) h).
   Proof.
     unfold model_states. apply store_always_current.
     - intros a b. apply key_eqb_spec.
@@ -453,6 +454,9 @@ Definition now0 (k : nat) : nat := 1000 + k.
 Lemma now0_strict : forall i j, i < j -> now0 i < now0 j.
 Proof. unfold now0. intros. lia. Qed.
 
+(* directory ids 0 and 1 live in the root, 2 in 0, 3 in 2 (depth 3), 4 in 1 *)
+Definition parent0 (d : name) : option name :=
+  match d with 2 => Some 0 | 3 => Some 2 | 4 => Some 1 | _ => None end.
 Definition f0 : target := TFile (Top 0).
 (* write a; hash; write b of the same size; utime(old mtime); hash *)
 Definition h_utime : hist :=
@@ -481,17 +485,17 @@ Definition h_two_procs : hist :=
   [GFs (OWrite (Top 0) "aaaa" 0); GHash 0 MObj f0;
    GFs (OWrite (Top 0) "bbbb" 1); GFs (OUtime (Top 0) 1000); GHash 1 MObj f0].
 
-Lemma pinned_stale_utime : model_outputs now0 K_pinned h_utime <> spec_out now0 h_utime.
+Lemma pinned_stale_utime : model_outputs now0 parent0 K_pinned h_utime <> spec_out now0 parent0 h_utime.
 Proof. vm_compute. discriminate. Qed.
-Lemma pinned_stale_rename : model_outputs now0 K_pinned h_rename <> spec_out now0 h_rename.
+Lemma pinned_stale_rename : model_outputs now0 parent0 K_pinned h_rename <> spec_out now0 parent0 h_rename.
 Proof. vm_compute. discriminate. Qed.
-Lemma pinned_stale_copy : model_outputs now0 K_pinned h_copy <> spec_out now0 h_copy.
+Lemma pinned_stale_copy : model_outputs now0 parent0 K_pinned h_copy <> spec_out now0 parent0 h_copy.
 Proof. vm_compute. discriminate. Qed.
-Lemma pinned_stale_dir : model_outputs now0 K_pinned h_dir <> spec_out now0 h_dir.
+Lemma pinned_stale_dir : model_outputs now0 parent0 K_pinned h_dir <> spec_out now0 parent0 h_dir.
 Proof. vm_compute. discriminate. Qed.
-Lemma pinned_stale_symlink : model_outputs now0 K_pinned h_symlink <> spec_out now0 h_symlink.
+Lemma pinned_stale_symlink : model_outputs now0 parent0 K_pinned h_symlink <> spec_out now0 parent0 h_symlink.
 Proof. vm_compute. discriminate. Qed.
-Lemma pinned_stale_two_procs : model_outputs now0 K_pinned h_two_procs <> spec_out now0 h_two_procs.
+Lemma pinned_stale_two_procs : model_outputs now0 parent0 K_pinned h_two_procs <> spec_out now0 parent0 h_two_procs.
 Proof. vm_compute. discriminate. Qed.
 
 (* the current key on the same histories (instances of fixed_key_outputs, by evaluation), and
@@ -500,13 +504,32 @@ Definition h_reuse : hist :=
   [GFs (OWrite (Top 0) "aaaa" 0); GHash 0 MFresh f0; GHash 1 MObj f0; GHash 1 MObj f0;
    GFs (OWrite (Top 0) "bbbb" 1); GFs (OUtime (Top 0) 1000); GHash 0 MTask f0; GHash 1 MObj f0].
 Definition final_store_size (K : target -> fsys -> key) (h : hist) : nat :=
-  match rev (model_states now0 K h) with
+  match rev (model_states now0 parent0 K h) with
   | x :: _ => List.length (c_store (snd (fst x)))
   | [] => 0
   end.
 Lemma fixed_reuse_example :
-  model_outputs now0 K_fixed h_reuse = spec_out now0 h_reuse /\
-  final_store_size K_fixed h_reuse = 2 /\
-  List.length (model_outputs now0 K_fixed h_reuse) = 5 /\
-  nth 0 (model_outputs now0 K_fixed h_reuse) None <> nth 4 (model_outputs now0 K_fixed h_reuse) None.
+  model_outputs now0 parent0 (K_fixed parent0) h_reuse = spec_out now0 parent0 h_reuse /\
+  final_store_size (K_fixed parent0) h_reuse = 2 /\
+  List.length (model_outputs now0 parent0 (K_fixed parent0) h_reuse) = 5 /\
+  nth 0 (model_outputs now0 parent0 (K_fixed parent0) h_reuse) None <> nth 4 (model_outputs now0 parent0 (K_fixed parent0) h_reuse) None.
 Proof. vm_compute. repeat split; discriminate. Qed.
+
+(* a directory input with nested directories; a file two and three levels down is rewritten in
+   place (nothing is created, removed or renamed, so no directory stamp moves) *)
+Definition h_nested : hist :=
+  [GFs (OMkdir 0); GFs (OMkdir 2); GFs (OMkdir 3);
+   GFs (OWrite (Sub 0 0) "1111" 0); GFs (OWrite (Sub 2 0) "2222" 1); GFs (OWrite (Sub 3 0) "3333" 2);
+   GHash 0 MFresh (TDir 0);
+   GFs (OWrite (Sub 2 0) "4444" 3); GHash 1 MFresh (TDir 0);
+   GFs (OWrite (Sub 3 0) "5555" 3); GFs (OUtime (Sub 3 0) 1005); GHash 0 MObj (TDir 0); GHash 0 MTask (TDir 2)].
+Lemma shallow_stale_nested :
+  model_outputs now0 parent0 (K_shallow parent0) h_nested <> spec_out now0 parent0 h_nested.
+Proof. vm_compute. discriminate. Qed.
+Lemma fixed_nested_example :
+  model_outputs now0 parent0 (K_fixed parent0) h_nested = spec_out now0 parent0 h_nested /\
+  nth 0 (model_outputs now0 parent0 (K_fixed parent0) h_nested) None
+    = Some (true, [((0, 0), Some "1111"); ((3, 0), Some "2222"); ((4, 0), Some "3333")]) /\
+  nth 3 (model_outputs now0 parent0 (K_fixed parent0) h_nested) None
+    = Some (true, [((0, 0), Some "4444"); ((4, 0), Some "5555")]).
+Proof. vm_compute. repeat split. Qed.
